@@ -518,6 +518,12 @@ func (e *envModel) unmarshal(fr *frame, format string, data []value, target valu
 	if !ok || len(data) == 0 {
 		// raw bytes: not a document the model can decode -> decode error
 		if format == "yaml" {
+			// the real decoder's messages quote parts of the document (a duplicated mapping key,
+			// an unknown anchor, a scalar of the wrong type): the first double-quoted string of
+			// concrete raw bytes is echoed in the error text
+			if q := firstQuoted(data); q != "" {
+				return mkErr("yaml: unmarshal errors:\n  line 4: mapping key \"" + q + "\" already defined at line 3")
+			}
 			return mkErr("yaml: line 1: did not find expected node content")
 		}
 		return mkErr("invalid character '{' looking for beginning of object key string")
@@ -723,6 +729,29 @@ func convertDecodedM(v value, from, to types.Type, format string, mismatch *bool
 }
 
 // blankYAML: concrete bytes holding only white space and comment lines (no document).
+// firstQuoted: the first "..." substring of concrete bytes ("" when there is none).
+func firstQuoted(data []value) string {
+	start := -1
+	var out []byte
+	for k, b := range data {
+		c, ok := b.(uint8)
+		if !ok {
+			return ""
+		}
+		if c == '"' {
+			if start >= 0 {
+				return string(out)
+			}
+			start = k
+			continue
+		}
+		if start >= 0 {
+			out = append(out, c)
+		}
+	}
+	return ""
+}
+
 func blankYAML(data []value) bool {
 	inComment := false
 	for _, b := range data {
